@@ -60,6 +60,17 @@ def run(c):
             e2 = list(e); e2[-1] = (e2[-1] + 1) % 256 if len(e2) > 2 else e2[-1]
             add(base["inp"] + e + e2)
             add(base["inp"] + e2 + e)
+        # the same element twice with DIFFERENT lengths (long then short, short then long)
+        byiei = {}
+        for e in singles: byiei.setdefault(e[0], []).append(e)
+        for iei, es in byiei.items():
+            es = sorted(es, key=len)
+            if len(es) >= 2 and len(es[0]) != len(es[-1]):
+                add(base["inp"] + es[-1] + es[0]); add(base["inp"] + es[0] + es[-1])
+                if len(es) >= 3: add(base["inp"] + es[len(es) // 2] + es[0])
+        # header octets that routing ignores, non-zero
+        for e in pick[:3]:
+            for v in hdr_variants(m, base["inp"] + e): add(v)
         # unknown identifier octets between / around elements
         unk = [b for b in range(256) if (b if b < 128 else b // 16) not in known]
         alias = [b for b in range(16)]
@@ -84,8 +95,7 @@ def run(c):
                 dict(case=cases[idx], observed={k: e[k] for k in ("ok", "e1ok", "e1", "d2ok", "e2ok", "e2", "panic", "pfn")}, how="harness codec run; validate with Trace_C03"))
 
     def confirm(idx, t):
-        e0 = json.loads(events[idx])
-        return confirm_case(c, drv, cases[idx], lambda e: e == e0)
+        return confirm_by_tlc(c, drv, cases[idx], "Trace_C03", t[2], context=cases[max(0, idx - 2):idx])
     c.triage(mism, classify, confirm)
     c.cov["accepted_inputs"] = acc
     c.cov["rule"] = "cases = decode-encode-decode-encode chains on the real code; distinct non-trivial = distinct inputs the real decoder accepted (the laws say nothing about rejected inputs)"
